@@ -93,3 +93,7 @@ impl State {
         }
     }
 }
+
+#[cfg(loom_verif)]
+#[path = "/verif/hooks/alloc_verif.rs"]
+pub(crate) mod verif;
